@@ -150,6 +150,17 @@ def unflatten(num, shape, order):
     axes = list(range(len(shape))) if order == "F" else list(reversed(range(len(shape))))
     out = [None] * len(shape)
     terms = W.resolve_terms(list(num.terms))
+    if all(sp.sympify(d).is_Integer and sp.sympify(r).is_Integer for d, r in terms) and all(sp.sympify(x).is_Integer for x in shape):
+        # fully concrete index: plain div/mod (used by the model cross-check and by concrete-dimension instances)
+        v = 0
+        stride = 1
+        for d, r in terms:
+            v += int(d) * stride
+            stride *= int(r)
+        for a in axes:
+            out[a] = Num([(sp.Integer(v % int(shape[a])), sp.Integer(int(shape[a])))])
+            v //= int(shape[a])
+        return tuple(out)
     pos = 0
     for a in axes:
         need = sp.sympify(shape[a])
